@@ -94,6 +94,28 @@ PROPS['C23'] = {
     'claim_draft': "Lean theorems (MinterProofs/Props/C23.lean, core Lean only, for all byte strings / items / naturals): the strict RLP decoder accepts nothing but the encoder's output for the item it returns and no item has two accepted encodings (encode_decode, decode_inj, decode_encode under the uint64 length bound, decode_prefix_free, decode_no_trailing, decode_fuel_irrelevant); integers are accepted only as minimal big-endian bytes within their width (uint_canonical, asUint_canonical); the outer transaction, every one of the 37 data structs GetDataV3 resolves to, Signature/SignatureMulti and check.Check re-encode to exactly the bytes that were accepted (encodeTx_decodeTx, decodeTx_encodeTx, decodeTx_wf, decodeTx_inj, accepts_reencode, acceptsTx_reencode, check_reencode, encodeSig_decodeSig, decodeSig_encodeSig, decodeSig_inj); the signature-value check has the closed form V in {27,28}, 1<=r<N, 1<=s<=N/2 (validSig_iff) so the high-S twin, any other V, zero and out-of-range values are rejected (highS_rejected, highS_flip_rejected, bad_v_rejected, zero_sig_rejected, out_of_range_rejected); hence for single-signature transactions the accepted bytes are a function of (signed content, v, r, s) (single_sig_encoding_unique). Tie: mode rlp runs the real rlp.DecodeBytes/EncodeToBytes, DecodeFromBytes of the executor, tx.Sender(), check decoding and Serialize() against the Lean definitions on generated items, all 37 transaction types (single and multisig), structurally mutated / non-canonically re-encoded / corrupted bytes and signature edge triples (Q functions rlpdec rlpenc beint uintdec uintenc txdec txenc txfull sigdec msigdec sigok chkdec), and checks on the real code that flipping v or s is rejected. Partial: ECDSA/Keccak are oracles; the last clause of C23 fails for SignatureType=2 - the signature list of a multisig transaction is not covered by tx.Hash and is accepted in any order / trimmed / padded (multisig_signature_list_not_canonical states the boundary on real bytes; the mode reproduces it on the node and reports it as the known finding multisig-signature-malleability).",
 }
 
+PROPS['C12'] = {
+    'level': 'partial', 'registered': False,
+    'modules': ['MinterProofs.Props.C12'],
+    'theorems': ['Minter.C12_partial',
+                 'Minter.saleReturnCert_nonneg', 'Minter.saleReturnCert_le_reserve', 'Minter.saleReturnCert_mono',
+                 'Minter.saleReturnCert_all', 'Minter.saleReturnCert_zero',
+                 'Minter.purchaseReturnCert_nonneg', 'Minter.purchaseReturnCert_mono',
+                 'Minter.purchaseAmountCert_nonneg', 'Minter.purchaseAmountCert_mono',
+                 'Minter.saleAmountCert_nonneg', 'Minter.saleAmountCert_le_supply', 'Minter.saleAmountCert_mono',
+                 'Minter.roundTrip_purchaseReturn_saleReturn', 'Minter.roundTrip_purchaseAmount_saleReturn',
+                 'Minter.saleReturnInt_cert', 'Minter.purchaseReturnInt_cert', 'Minter.purchaseAmountInt_cert', 'Minter.saleAmountInt_cert',
+                 'Minter.saleReturnInt_all', 'Minter.saleReturnInt_range', 'Minter.saleReturnInt_mono',
+                 'Minter.purchaseReturnInt_mono', 'Minter.purchaseAmountInt_mono', 'Minter.saleAmountInt_mono',
+                 'Minter.roundTripInt_purchaseReturn_saleReturn', 'Minter.roundTripInt_purchaseAmount_saleReturn',
+                 'Minter.roundTripInt_purchaseReturn_saleAmount'],
+    'modes': [{'mode': 'bancor', 'args': ['-seed', '{seed}', '-n', '0', '-tier', '{tier}', '-driver', '{driver}', '-keep', '{keep}']},
+              {'mode': 'kernels', 'args': ['-seed', '{seed}', '-n', '300', '-driver', '{driver}', '-keep', '{keep}']}],  # integer branches, exact
+    'assumptions': ['the float branch is validated per input (translation validation): every result of the real formula.* on the generated inputs is judged by the exact Lean certificate; accuracy of the Go float pipeline for ALL inputs is not proved',
+                    'the four tolerances (Bancor.lean: result/2^k1 + scale/2^k2 + 1 pip) are measured maxima times 1000, fixed in the model, not derived'],
+    'claim_draft': "Partial. Lean theorems (MinterProofs/Props/C12.lean; for all supplies v>0, reserves R>0, amounts and CRR): the integer branches of formula.CalculateSaleReturn/PurchaseReturn/PurchaseAmount/SaleAmount (crr=100, amount 0, sell-all) are exact - range, monotonicity, sell-all = reserve, buy-then-sell never returns more than was paid (saleReturnInt_all/_range/_mono, purchaseReturnInt_mono, purchaseAmountInt_mono, saleAmountInt_mono, roundTripInt_*), and each integer result satisfies the exact certificate with tolerance 0 (*Int_cert). For the big.Float branch the theorems are about CERTIFIED results: whenever the decidable exact certificate (natural powers of integers, all bases guarded non-negative) accepts a claimed result r with tolerance d, then -d <= r, a sale returns at most R+d (v+d for saleAmount), results are monotone in the amount up to d+d', selling the whole supply returns the reserve, and buy-then-sell returns at most the payment plus the stated tolerance terms (*Cert_nonneg, *_le_reserve, *_le_supply, *Cert_mono, saleReturnCert_all/_zero, roundTrip_purchaseReturn_saleReturn, roundTrip_purchaseAmount_saleReturn); C12_partial bundles the eleven clauses for results accepted by exactly the predicates the driver evaluates. Tie (translation validation): mode bancor calls the real formula.Calculate* on generated inputs (reachable / wide / degenerate classes, every CRR 10..100, magnitudes up to 10^33 and beyond 2^100) and the Lean certificate, the exact range/monotonicity/sell-all monitors and the round-trip bounds judge every result; integer-branch results must be equal; mode kernels covers the integer kernels. Partial: that the Go float pipeline (big.Float prec 100, exponent passed as float64) satisfies the certificate for ALL inputs is not proved (needs a bit-exact model of math.Exp); tolerances are measured, not derived; no round-trip theorem for saleAmount on float results. Known finding: for reserves above 2^100 pip CalculateSaleReturn can return more than the reserve (and more than selling the whole supply), by at most 1024 pip.",
+}
+
 
 # ---------------------------------------------------------------------------------------------------------------
 # What is claimed (MANIFEST.json is generated from this by tools/gen_manifest.py)
